@@ -10,17 +10,21 @@
             for (unsigned int i = 0; i < N; ++i) {                                                  // :23
                 ParticleIndex i1 = IndexInfo.getIndex(SiteLabels[i], Orbitals[i], Spins[i]);        // :24
                 Operator t1 = (OperatorSequence[i]==creation) ? c_dag(i1) : c(i1);                  // :25
-                if (tmp.isEmpty()) tmp = t1;                                                        // :26
+                if (<first-factor test>) tmp = t1;                                                  // :26
                 else tmp *= t1;                                                                     // :27
             }
             this->operator+=( current->Value * tmp );                                                     // :31
         }
 
-    * [Operator::isEmpty()] (Operator.h:219) is [monomials.size()==0].  It is true before the first factor
-      AND whenever the running product has vanished (c^+_0 c^+_0 normal-orders to nothing), in which case the
-      next factor *replaces* the product instead of multiplying it.  [fixed = false] is the loop as written;
-      [fixed = true] is the minimal repair: "first factor" is decided by the loop index ([i == 0]).
-      Which one the library is, is decided by the correspondence check (checks/C04.py), never assumed.
+    * The first-factor test has two variants, selected by [fixed]:
+        [fixed = true ]  [i == 0]          -- the code since /repo commit 698bb7e;
+        [fixed = false]  [tmp.isEmpty()]   -- the code before it.  [Operator::isEmpty()] (Operator.h:219) is
+      [monomials.size()==0]: true before the first factor AND whenever the running product has vanished
+      (c^+_0 c^+_0 normal-orders to nothing), in which case the next factor *replaces* the product instead of
+      multiplying it (refuted: PresetsPrepare.prepare_sound_refuted).
+      Which variant the tree at hand has is read from the source text on every run (translator/gen_c04.py ->
+      PVgen.Gen_IndexHamiltonian.prepare_first_by_index; PresetsConfig.prepare_code) and confirmed by the
+      correspondence check (checks/C04.py compares the model's polynomial with the library's), never assumed.
     * [Value * tmp] is boost::multipliable2's [operator*(MelemType, Operator)]: a copy of tmp followed by
       [operator*=(MelemType)] (Operator.h:160-170), which CLEARS the polynomial when |Value| < 100 eps and
       multiplies every coefficient from the right otherwise: [Poly.pscale].
@@ -33,7 +37,7 @@
     * Reading OperatorSequence / SiteLabels / Orbitals / Spins past their end is [OOB] (cannot happen for terms
       built by the Term constructors or the factories, whose four vectors all have length N).
 
-    Definitions only; the proofs are in PresetsProofs.v. *)
+    Definitions only; the proofs are in PresetsPrepare.v. *)
 Require Import Bool List Arith.
 From PV Require Import Outcome Fock Poly Lattice.
 Import ListNotations.
@@ -70,8 +74,8 @@ Definition p_factor (o : Fock.op) : poly K := [([o], k1)].
 
 Definition is_empty (p : poly K) : bool := match p with [] => true | _ => false end.   (* Operator.h:219 *)
 
-(** :23-28 the running product. [first] = "no factor has been processed yet" (i == 0); the code as written
-    does not have this information and tests [tmp.isEmpty()] instead. *)
+(** :23-28 the running product. [first] = "no factor has been processed yet" (i == 0); the variant [fixed = false]
+    does not use this information and tests [tmp.isEmpty()] instead. *)
 Fixpoint product_loop (fixed : bool) (fs : list Fock.op) (tmp : poly K) (first : bool) : outcome (poly K) :=
   match fs with
   | [] => Done tmp
